@@ -13,7 +13,7 @@
 (* A state s has at least: fs (PosixFS state), fds, dirty, syncfail, pubs,  *)
 (* supplied, planted, cur, steps, listed, created, opfds.                   *)
 (***************************************************************************)
-EXTENDS PosixFS
+EXTENDS PosixFS, SecondChance
 
 Get(f, k, dflt) == IF k \in DOMAIN f THEN f[k] ELSE dflt
 Put(f, k, v) == (k :> v) @@ f
@@ -162,6 +162,42 @@ RejectedNoEffect(cfg, s, e) ==
         /\ e.api \in {"get", "touch", "set", "put", "ensure", "gou", "set_tf", "put_tf"} =>
         \A pth \in (IF Has(e, "path") THEN {e.path} ELSE {}) \cup (IF Has(e, "path2") THEN {e.path2} ELSE {}) :
             IsPrivDir(DirOf(pth)) \/ IsKismetTemp(cfg, DirOf(pth)) \/ (e.call = "mkdir" /\ IsStructuralDir(cfg, DirId(pth)))
+
+\* ---- C07: what maintenance did to a directory is what Second Chance prescribes
+\* (entries: the non-directory, non-dot names of the directory; see C17 for dot files)
+EntryNames(fs, d) == {n \in DOMAIN fs.ents[d] : fs.ents[d][n] # "DIR" /\ FirstChar(n) # "."}
+SubDirs(fs, d) == {n \in DOMAIN fs.ents[d] : fs.ents[d][n] = "DIR"}
+InoAt(fs, d, n) == fs.inos[fs.ents[d][n]]
+PruneOK(pre, post, d, cap) ==
+    LET names == EntryNames(pre, d)
+        left == EntryNames(post, d)
+        gone == names \ left
+        moved == {n \in names \cap left : InoAt(post, d, n).mt # InoAt(pre, d, n).mt}
+        ents == SetToSeq({[id |-> n, rank |-> InoAt(pre, d, n).mt, acc |-> TLe(InoAt(pre, d, n).mt, InoAt(pre, d, n).at)] : n \in names})
+        movedSeq == SortSeq(SetToSeq(moved), LAMBDA a, b : TLt(InoAt(post, d, a).mt, InoAt(post, d, b).mt))
+    IN /\ left \subseteq names
+       /\ SubDirs(pre, d) = SubDirs(post, d)
+       /\ PlanOK(ents, cap, SetToSeq(gone), movedSeq)
+       /\ \A n \in moved :
+            /\ post.ents[d][n] = pre.ents[d][n]
+            /\ InoAt(post, d, n).at = <<InoAt(post, d, n).mt[1] - 120, InoAt(post, d, n).mt[2]>>     \* read mark cleared
+            /\ \A m \in names : TLt(InoAt(pre, d, m).mt, InoAt(post, d, n).mt)                      \* back of the queue
+            /\ InoAt(post, d, n).c = InoAt(pre, d, n).c /\ InoAt(post, d, n).mode = InoAt(pre, d, n).mode
+       /\ \A n \in (names \cap left) \ moved : post.ents[d][n] = pre.ents[d][n] /\ InoAt(post, d, n) = InoAt(pre, d, n)
+
+\* nothing outside the configured cache directories (and the application's scratch dirs) changes
+UnderSomeRoot(cfg, d) == \E r \in Roots(cfg) : Under(d, r.id)
+RootAncestorName(cfg, d, n) == \E r \in Roots(cfg) : LET c == IF d = "." THEN n ELSE d \o "/" \o n IN Under(r.id, c)
+OutsideUntouched(cfg, s, e, s2) ==
+    Has(e, "ph") /\ e.ph \in {"lib", "cb"} =>
+        \A d \in (DOMAIN s.fs.ents) \cup (DOMAIN s2.fs.ents) :
+            ~UnderSomeRoot(cfg, d) /\ ~IsPrivDir(d) =>
+                /\ d \in DOMAIN s.fs.ents /\ d \in DOMAIN s2.fs.ents
+                /\ \A n \in (DOMAIN s.fs.ents[d]) \cup (DOMAIN s2.fs.ents[d]) :
+                      RootAncestorName(cfg, d, n) \/ IsPrivDir(IF d = "." THEN n ELSE d \o "/" \o n) \/
+                      (/\ n \in DOMAIN s.fs.ents[d] /\ n \in DOMAIN s2.fs.ents[d] /\ s.fs.ents[d][n] = s2.fs.ents[d][n]
+                       /\ LET i == s.fs.ents[d][n] IN
+                            i # "DIR" /\ i \in DOMAIN s.fs.inos /\ i \in DOMAIN s2.fs.inos => s.fs.inos[i] = s2.fs.inos[i])
 
 \* ---- C17: maintenance deletes only cache entries and stale temporary files
 MaxTempAge == 3600
